@@ -126,13 +126,13 @@ func runC17(c *CaseCtx) {
 // runC18: Backup while writers run. Writers execute a pre-generated list of operations indexed by an in-database
 // sequence key, so the state after n commits is the deterministic S(n).
 func runC18(c *CaseCtx) {
-	if c.Case%8 == 1 {
+	if slot(c, 8) == 1 {
 		kind := []string{"kv", "set", "zset", "list"}[c.Rng.Intn(4)]
 		modes := []int{0}
 		if kind == "kv" {
 			modes = []int{0, 1, 2}
 		}
-		largeHistory(c, "backup-quiescent", largeOpts{Kind: kind, Modes: modes, Backup: true, Merge: c.Case%16 == 9})
+		largeHistory(c, "backup-quiescent", largeOpts{Kind: kind, Modes: modes, Backup: true, Merge: (c.Case/8)%2 == 0})
 		return
 	}
 	r := c.Rng
@@ -435,7 +435,7 @@ func runC18(c *CaseCtx) {
 func init() {
 	register(&Check{
 		ID: "C14", Level: "exploration",
-		NCases:       func(t string) int { return tier(t, 64, 1500) },
+		NCases:       func(t string) int { return tier(t, 64, 900) },
 		Run:          runC14,
 		Workers:      8,
 		CaseDeadline: 8 * time.Minute, // wall-clock watchdog only: its firing is inconclusive unless the dump shows a lock deadlock
@@ -453,7 +453,7 @@ func init() {
 	})
 	register(&Check{
 		ID: "C17", Level: "exploration", LeakClass: "merge-concurrent",
-		NCases:       func(t string) int { return tier(t, 48, 400) },
+		NCases:       func(t string) int { return tier(t, 48, 250) },
 		Run:          runC17,
 		Workers:      8,
 		CaseDeadline: 8 * time.Minute, // wall-clock watchdog only (see C14)
@@ -470,7 +470,7 @@ func init() {
 	})
 	register(&Check{
 		ID: "C18", Level: "exploration",
-		NCases:  func(t string) int { return tier(t, 96, 5000) },
+		NCases:  func(t string) int { return tier(t, 96, 3000) },
 		Run:     runC18,
 		Workers: 8,
 		Rule: "[also: 1 case in 8 is a quiescent Backup of a large-geometry history (opened and compared with the model); a quarter of the RAM-mode cases run Merge in a loop next to writers and Backups over a few dozen sealed segments (list-free scripts)] case = 0-8 writer goroutines execute a pre-generated script indexed by an in-database sequence key (so the state after n commits is the deterministic S(n)) while Backup(dir) is called 1-3 times into fresh directories, under the race detector, in all index modes and RWModes; " +
